@@ -220,10 +220,12 @@ def observe(o):
     if k == "mol":
         gs = gro_atoms(o)
         ts = top_atoms(o)
+        mt = o.__dict__.get("_molecule_top")        # (not through the property: see top_atoms)
+        mname = str((mt if mt is not None else o.molecule_top).name)
         if len(gs) != len(ts):
-            return ("MR", str(o.molecule_top.name), tuple(_top_obs(t) for t in ts),
+            return ("MR", mname, tuple(_top_obs(t) for t in ts),
                     tuple(tuple(_gro_obs(g) for g in res) for res in o.residues))
-        return ("M", str(o.molecule_top.name), tuple((_gro_obs(g), _top_obs(t)) for g, t in zip(gs, ts)))
+        return ("M", mname, tuple((_gro_obs(g), _top_obs(t)) for g, t in zip(gs, ts)))
     if k == "res":
         return ("R", tuple(_gro_obs(g) for g in o))
     if k == "agro":
